@@ -28,6 +28,7 @@ pub struct Core {
     pub log: Vec<Ev>,
     pub ops: usize,               // number of stream operations issued so far
     pub fail_from: Option<usize>, // operations with index >= this fail
+    pub fail_at: Option<usize>,   // the operation with exactly this index fails (transient fault)
     pub sched: Schedule,
     pub calls: usize,
     pub pend_calls: usize,
@@ -43,6 +44,9 @@ impl Core {
     fn fault(&mut self) -> io::Result<()> {
         let k = self.ops;
         self.ops += 1;
+        if self.fail_at == Some(k) {
+            return Err(io::Error::new(io::ErrorKind::Other, "injected transient fault"));
+        }
         match self.fail_from {
             Some(f) if k >= f => Err(io::Error::new(io::ErrorKind::Other, "injected fault")),
             _ => Ok(()),
